@@ -83,10 +83,29 @@ def stoppedLast (ops : List Op) (rs : List Res) : Bool :=
 def stopTerminates (k : Kind) (ops : List Op) (o : Obs) : Bool :=
   !(k == .basic && stoppedLast ops o.res) || o.alive == some false
 
-/-- The whole property: the five clauses of `Spec` and `stopTerminates`. The observation it is evaluated on must
-    not depend on the command shape (shell or not, arguments or not): the input's shape is not an argument. -/
+/-- some `giveup` of the schedule was carried out: the executor itself gave the task up — reported the failed
+    launch and ran its escalation over the task's process group (`rs` = the results after LAUNCH's) -/
+def gaveUpFrom : List Op → List Res → Bool
+  | op :: ops, r :: rs => (op = .giveup && r = .ok) || gaveUpFrom ops rs
+  | _, _ => false
+
+def gaveUpOk (ops : List Op) (rs : List Res) : Bool :=
+  match rs with
+  | [] => false
+  | _ :: rs => gaveUpFrom ops rs
+
+/-- "… killing any task terminates the whole process group within the bounded TERM/INT/KILL escalation" — also
+    when it is the executor itself that kills the task because its launch failed: once the failure has been
+    reported and the escalation has had its time, NO process of the task is alive (every member of the group, not
+    just its leader; and the run did not end half-way). -/
+def giveupTerminates (ops : List Op) (o : Obs) : Bool :=
+  !gaveUpOk ops o.res || o.alive == some false
+
+/-- The whole property: the five clauses of `Spec`, `stopTerminates` and `giveupTerminates`. The observation it
+    is evaluated on must not depend on the command shape (shell or not, arguments or not): the input's shape is
+    not an argument. -/
 def SpecAll (k : Kind) (ops : List Op) (o : Obs) : Bool :=
-  Spec ops o && stopTerminates k ops o
+  Spec ops o && stopTerminates k ops o && giveupTerminates ops o
 
 /-! ### request states the code does not survive / does not serve (excluded hypotheses) -/
 
